@@ -16,7 +16,7 @@ ASSUMPTIONS = [
     "str-valued domains, with values distinct from one variable to the next, are used so that neither a number nor a neighbour's value can be mistaken for a domain value",
 ]
 BOUNDS = {
-    "quick": "11 algorithms x {lone variable with a unary constraint, pair, pair with a single-value domain, pair+isolated variable, pair with a unary constraint (thorough only for mgm2, maxsum, dsa)} (+ chain-3 for dpop/syncbb/mgm), domain 2 (str values, distinct per variable), min mode; canonical schedule, 40 transitions (16 for the never-ending synchronous ones: dsatuto, maxsum, amaxsum)",
+    "quick": "11 algorithms x {lone variable with a unary constraint, pair, pair with a single-value domain, pair+isolated variable (last / in the middle of the lexical order), pair with a unary constraint (thorough only for mgm2, maxsum, dsa)} (+ chain-3 for dpop/syncbb/mgm), domain 2 (str values, distinct per variable), min mode; canonical schedule, 40 transitions (16 for the never-ending synchronous ones: dsatuto, maxsum, amaxsum)",
     "thorough": "quick + max mode, all schedules on the pair, chain-3 for every algorithm, 60 transitions",
 }
 OUTSIDE = "more than 3 variables, domains above 2, runs beyond the transition budget, mixeddsa/ncbb/maxsum_dynamic (not in the property's list)"
@@ -28,6 +28,8 @@ def jobs(tier):
     for algo in ALGOS:
         # a lone variable with a unary constraint, a pair where one variable also has a unary constraint, ...
         structs = ["unary", "pair", "pair_iso"]
+        if tier == "thorough" or algo not in ("mgm2", "dsatuto", "dsa"):
+            structs.append("pair_isomid")
         if tier == "thorough" or algo not in ("mgm2", "maxsum", "dsa"):
             structs.append("pair_unary")
         if algo in ("dpop", "syncbb", "mgm") or (algo == "dsa" and tier == "thorough"):
